@@ -63,7 +63,25 @@ func writeSettings(fname string, settings *settings) error {
 		return fmt.Errorf("failed to create settings directory: %w", err)
 	}
 
-	if err := os.WriteFile(fname, data, 0644); err != nil {
+	// Write to a temporary file in the same directory and rename it over
+	// fname, so that an interrupted or failed write never leaves a partially
+	// written settings file behind.
+	tmp, err := os.CreateTemp(filepath.Dir(fname), filepath.Base(fname)+".tmp*")
+	if err != nil {
+		return fmt.Errorf("failed to write settings: %w", err)
+	}
+	_, err = tmp.Write(data)
+	if cerr := tmp.Close(); err == nil {
+		err = cerr
+	}
+	if err == nil {
+		err = os.Chmod(tmp.Name(), 0644)
+	}
+	if err == nil {
+		err = os.Rename(tmp.Name(), fname)
+	}
+	if err != nil {
+		os.Remove(tmp.Name())
 		return fmt.Errorf("failed to write settings: %w", err)
 	}
 	return nil
